@@ -377,8 +377,14 @@ func (p *Path) mkCand(site, known string, mv map[*Term]uint64) Candidate {
 	for k, v := range p.notes {
 		notes[k] = v
 	}
+	var ch []string
+	for _, in := range p.inputs {
+		if in.Kind == "choice" {
+			ch = append(ch, in.Name+"="+strconv.Itoa(in.N))
+		}
+	}
 	return Candidate{Site: site, Harness: p.harness, Model: p.modelMap(mv), Known: known,
-		Decis: append([]int64{}, p.decis...), Note: notes}
+		Decis: append([]int64{}, p.decis...), Note: notes, Choices: strings.Join(ch, ",")}
 }
 
 // FormatObs renders one observed value the same way the native zzsv does.
